@@ -130,7 +130,7 @@ impl Campaign for C16 {
                 .prop_map(|(locator, blob, delay, user_sig, start_block, slots, expiry, signer, err)| Case::Add { locator, blob, delay, user_sig, start_block, slots, expiry, signer, err }),
             2 => (fixed(16), sigs(), bytes(600), u32b(), 0i32..3, err()).prop_map(|(locator, sig, reply_blob, reply_delay, status, err)| Case::GetAppt { locator, sig, reply_blob, reply_delay, status, err }),
             2 => (fixed(16), sigs(), prop_oneof![3 => fixed(32), 1 => bytes(40)], prop_oneof![3 => fixed(32), 1 => bytes(40)], bytes(600), err()).prop_map(|(locator, sig, dispute, penalty, raw, err)| Case::GetTracker { locator, sig, dispute, penalty, raw, err }),
-            2 => (sigs(), u32b(), u32b(), proptest::collection::vec(prop_oneof![6 => fixed(16), 1 => bytes(24)], 0..50), err()).prop_map(|(sig, slots, expiry, locators, err)| Case::SubInfo { sig, slots, expiry, locators, err }),
+            2 => (sigs(), u32b(), u32b(), prop_oneof![9 => proptest::collection::vec(prop_oneof![6 => fixed(16), 1 => bytes(24)], 0..50), 1 => proptest::collection::vec(fixed(16), 200..600)], err()).prop_map(|(sig, slots, expiry, locators, err)| Case::SubInfo { sig, slots, expiry, locators, err }),
             2 => (fixed(16), bytes(300), u32b(), any::<u8>(), u32b(), u32b(), u32b(), "[ybndrfg8ejkmcpqxot1uwisza345h769]{0,104}".prop_map(|s| s), 0u8..6)
                 .prop_map(|(locator, blob, delay, shift, slots, start, expiry, user_sig, which)| Case::Layout { locator, blob, delay, shift, slots, start, expiry, user_sig, which }),
         ]
@@ -454,7 +454,7 @@ pub fn run(ctx: &Ctx) -> i32 {
     }
     let mut ev = Evidence::default();
     ev.level = "exploration".into();
-    ev.rule = "generated values of every message type (u32 boundaries, empty and long blobs, arbitrary printable / unicode / empty signature strings, 0-49 locators, every mapped gRPC error code) are sent with the client's own functions (register, send_appointment, post_request + process_post_response) through the real warp router to a recording mock tower, and the scripted reply travels back the same way: what the mock received must equal what was sent, what the client parsed must equal what the mock replied (error objects: code and message); serde round-trip identity for every message type; byte-reversed txids on the wire; documented signed layouts parsed back and neighbouring field tuples must serialise differently. Every case is non-trivial; distinct = distinct cases.".into();
+    ev.rule = "generated values of every message type (u32 boundaries, empty and long blobs, arbitrary printable / unicode / empty signature strings, 0-49 (one case in ten: 200-599) locators, every mapped gRPC error code) are sent with the client's own functions (register, send_appointment, post_request + process_post_response) through the real warp router to a recording mock tower, and the scripted reply travels back the same way: what the mock received must equal what was sent, what the client parsed must equal what the mock replied (error objects: code and message); serde round-trip identity for every message type; byte-reversed txids on the wire; documented signed layouts parsed back and neighbouring field tuples must serialise differently. Every case is non-trivial; distinct = distinct cases.".into();
     ev.extra.insert("cases_through_the_wire".into(), json!(net_cases));
     ev.assumptions = vec![
         "requests are kept within the tower's body limits (larger ones get 413 and are counted, not judged)".into(),
